@@ -21,6 +21,7 @@ use std::cmp::Ordering;
 use std::collections::hash_map::DefaultHasher;
 use std::collections::{BTreeMap, BTreeSet};
 use std::hash::{Hash, Hasher};
+use std::sync::atomic::{AtomicU64, Ordering as AtomicOrdering};
 use std::net::{IpAddr, Ipv4Addr, Ipv6Addr};
 use std::str::FromStr;
 use rayon::prelude::*;
@@ -36,20 +37,29 @@ fn bump(m: &mut Oc, k: &'static str) { *m.entry(k).or_insert(0) += 1 }
 fn h<T: Hash>(t: &T) -> u64 { let mut x = DefaultHasher::new(); t.hash(&mut x); x.finish() }
 
 /// Failures of one work item, handed to the Ctx in enumeration order so that
-/// the printed witnesses do not depend on thread scheduling.
-struct Fails(Vec<(&'static str, String, String)>);
+/// the printed witnesses do not depend on thread scheduling. At most ROW_CAP
+/// failures per oracle and work item are rendered; the rest are only counted
+/// (a broken relation would otherwise produce billions of strings).
+static SUPPRESSED: AtomicU64 = AtomicU64::new(0);
+const ROW_CAP: u32 = 16;
+struct Fails { v: Vec<(&'static str, String, String)>, per: BTreeMap<&'static str, u32> }
 impl Fails {
-    fn new() -> Self { Fails(Vec::new()) }
-    fn fail(&mut self, o: &'static str, w: String, d: impl Into<String>) { self.0.push((o, w, d.into())) }
+    fn new() -> Self { Fails { v: Vec::new(), per: BTreeMap::new() } }
+    fn fail(&mut self, o: &'static str, w: &dyn Fn() -> String, d: impl FnOnce() -> String) {
+        let c = self.per.entry(o).or_insert(0); *c += 1;
+        if *c <= ROW_CAP { self.v.push((o, w(), d())) } else { SUPPRESSED.fetch_add(1, AtomicOrdering::Relaxed); }
+    }
     fn check(&mut self, o: &'static str, w: &dyn Fn() -> String, f: impl FnOnce() -> Result<(), String>) -> bool {
         match guard(f) {
             Ok(Ok(())) => true,
-            Ok(Err(d)) => { self.fail(o, w(), d); false }
-            Err(p) => { self.fail(o, w(), p); false }
+            Ok(Err(d)) => { self.fail(o, w, || d); false }
+            Err(p) => { self.fail(o, w, || p); false }
         }
     }
-    fn flush(self, ctx: &Ctx) { for (o, w, d) in self.0 { ctx.fail(o, w, d) } }
+    fn flush(self, ctx: &Ctx) { for (o, w, d) in self.v { ctx.fail(o, w, d) } }
 }
+/// Runs f(i) for i in 0..n on all cores, in batches; failures are handed to
+/// the Ctx sequentially in index order after each batch.
 fn batched(ctx: &Ctx, n: usize, batch: usize, f: impl Fn(usize, &mut Fails) + Sync) {
     let mut lo = 0;
     while lo < n {
@@ -58,6 +68,11 @@ fn batched(ctx: &Ctx, n: usize, batch: usize, f: impl Fn(usize, &mut Fails) + Sy
         for v in out { v.flush(ctx) }
         lo = hi;
     }
+}
+
+/// Opt-in progress line on stderr (VERIF_TIMING=1); never part of the evidence.
+fn lap(t0: &std::time::Instant, what: &str) {
+    if std::env::var_os("VERIF_TIMING").is_some() { eprintln!("[timing] {:>8.2}s  {what}", t0.elapsed().as_secs_f64()) }
 }
 
 // ------------------------------------------------------------------ model
@@ -127,6 +142,7 @@ fn model_prefix_text(t: &str) -> Option<(bool, u128, u8)> {
 // --------------------------------------------------------------------- main
 
 fn main() {
+    let t0 = std::time::Instant::now();
     let ctx = Ctx::new("C13", "exploration");
     ctx.assume("std::net address parsing/formatting and integer parsing are trusted");
     ctx.assume("std::hash::DefaultHasher::new() is deterministic; equal values must hash equally under any hasher");
@@ -156,15 +172,15 @@ fn main() {
                 let generic = guard(|| if relaxed { Prefix::new_relaxed(ip(v4, a), len) } else { Prefix::new(ip(v4, a), len) });
                 let (typed, generic) = match (typed, generic) {
                     (Ok(t), Ok(g)) => (t, g),
-                    (Err(p), _) | (_, Err(p)) => { fl.fail("C13.prefix.construct.nopanic", wit(), p); continue }
+                    (Err(p), _) | (_, Err(p)) => { fl.fail("C13.prefix.construct.nopanic", &wit, || p); continue }
                 };
                 if typed.is_ok() != generic.is_ok() || (typed.is_ok() && typed.as_ref().ok() != generic.as_ref().ok()) {
-                    fl.fail("C13.prefix.construct.model", wit(), "typed and IpAddr constructors disagree");
+                    fl.fail("C13.prefix.construct.model", &wit, || "typed and IpAddr constructors disagree".into());
                 }
                 match (typed, expect) {
                     (Err(_), None) => bump(&mut oc, if !in_fam { "rejected-length" } else { "rejected-host-bits" }),
-                    (Err(e), Some(m)) => fl.fail("C13.prefix.construct.model", wit(), format!("rejected ({e}) although {} is a valid prefix", m.text())),
-                    (Ok(p), None) => fl.fail("C13.prefix.construct.model", wit(), format!("constructed {}/{} although {}", p.addr(), p.len(),
+                    (Err(e), Some(m)) => fl.fail("C13.prefix.construct.model", &wit, || format!("rejected ({e}) although {} is a valid prefix", m.text())),
+                    (Ok(p), None) => fl.fail("C13.prefix.construct.model", &wit, || format!("constructed {}/{} although {}", p.addr(), p.len(),
                         if !in_fam { "the length exceeds the family maximum" } else { "host bits are set" })),
                     (Ok(p), Some(m)) => {
                         nt += 1;
@@ -196,7 +212,7 @@ fn main() {
     sp.set("distinct_values_built", json!(built.len()));
     sp.sample_str(|| "strict addr=255.255.255.254 len=31 -> 255.255.255.254/31; len=30 -> rejected (host bits); len=33 -> rejected (length)".into());
     sp.sample_str(|| "relaxed addr=::1 len=127 -> ::/127".into());
-    sp.done(true, "every address of the boundary domain x every length 0..=255 x strict/relaxed x typed/IpAddr constructor");
+    sp.done(true, "every address of the boundary domain x every length 0..=255 x strict/relaxed x typed/IpAddr constructor"); lap(&t0, &sp.name);
 
     // ------------------------------------------------------ 2. maxlen.construct
     let sp = ctx.space("maxlen.construct",
@@ -209,7 +225,9 @@ fn main() {
         bases.sort(); bases.dedup();
         let res: Vec<(Fails, Oc, u64)> = bases.par_iter().map(|&m| {
             let mut fl = Fails::new(); let mut oc: Oc = BTreeMap::new(); let mut nt = 0u64;
-            let p = Prefix::new(m.ip(), m.len).expect("checked in space 1");
+            let p = match guard(|| Prefix::new(m.ip(), m.len)) { Ok(Ok(p)) => p, _ => {
+                fl.fail("C13.prefix.construct.model", &|| format!("strict addr={} len={}", m.ip(), m.len), || "a valid prefix could not be constructed".into());
+                return (fl, oc, nt) } };
             let maxs: Vec<Option<u8>> = std::iter::once(None).chain((0..=255u8).map(Some)).collect();
             for ml in maxs {
                 let wit = || format!("prefix={} max_len={ml:?}", m.text());
@@ -222,10 +240,10 @@ fn main() {
                     Ok(())
                 };
                 match guard(|| MaxLenPrefix::new(p, ml)) {
-                    Err(pn) => fl.fail("C13.maxlen.new", wit(), pn),
-                    Ok(Err(e)) => { if ok { fl.fail("C13.maxlen.new", wit(), format!("rejected: {e}")) } else { bump(&mut oc, "new-rejected") } }
+                    Err(pn) => fl.fail("C13.maxlen.new", &wit, || pn),
+                    Ok(Err(e)) => { if ok { fl.fail("C13.maxlen.new", &wit, || format!("rejected: {e}")) } else { bump(&mut oc, "new-rejected") } }
                     Ok(Ok(v)) => {
-                        if !ok { fl.fail("C13.maxlen.new", wit(), "accepted although not prefix-len <= max-len <= family maximum") }
+                        if !ok { fl.fail("C13.maxlen.new", &wit, || "accepted although not prefix-len <= max-len <= family maximum".into()) }
                         else {
                             bump(&mut oc, "new-accepted"); if ml.is_some() { nt += 1 }
                             fl.check("C13.maxlen.new", &wit, || check_val(v, ml));
@@ -240,7 +258,7 @@ fn main() {
                 }
                 let sat_want = ml.map(|x| x.clamp(m.len, fam_max(m.v4)));
                 match guard(|| MaxLenPrefix::saturating_new(p, ml)) {
-                    Err(pn) => fl.fail("C13.maxlen.saturating_new", wit(), pn),
+                    Err(pn) => fl.fail("C13.maxlen.saturating_new", &wit, || pn),
                     Ok(v) => {
                         bump(&mut oc, if sat_want == ml { "saturating-unchanged" } else { "saturating-clamped" });
                         fl.check("C13.maxlen.saturating_new", &wit, || check_val(v, sat_want));
@@ -253,7 +271,7 @@ fn main() {
         sp.evals(bases.len() as u64 * 257 * 2);
         sp.set("prefixes", json!(bases.len()));
         sp.sample_str(|| "prefix=255.255.0.0/16 max_len=Some(15) -> new rejects, saturating_new gives 16".into());
-        sp.done(true, "every length of both families at 2 addresses x {None, every max-len 0..=255} x {new, saturating_new}");
+        sp.done(true, "every length of both families at 2 addresses x {None, every max-len 0..=255} x {new, saturating_new}"); lap(&t0, &sp.name);
     }
 
     // ------------------------------------------------------- 3. text.deviations
@@ -279,7 +297,7 @@ fn main() {
             for relaxed in [false, true] {
                 let r = guard(|| if relaxed { Prefix::from_str_relaxed(t) } else { Prefix::from_str(t) });
                 match r {
-                    Err(p) => fl.fail("C13.fromstr.nopanic", wit(), p),
+                    Err(p) => fl.fail("C13.fromstr.nopanic", &wit, || p),
                     Ok(Err(_)) => bump(oc, "prefix-rejected"),
                     Ok(Ok(p)) => {
                         any = true;
@@ -298,7 +316,7 @@ fn main() {
                 }
             }
             match guard(|| MaxLenPrefix::from_str(t)) {
-                Err(p) => fl.fail("C13.fromstr.nopanic", wit(), p),
+                Err(p) => fl.fail("C13.fromstr.nopanic", &wit, || p),
                 Ok(Err(_)) => bump(oc, "maxlen-rejected"),
                 Ok(Ok(v)) => {
                     any = true;
@@ -320,7 +338,7 @@ fn main() {
                 }
             }
             match guard(|| Asn::from_str(t)) {
-                Err(p) => fl.fail("C13.fromstr.nopanic", wit(), p),
+                Err(p) => fl.fail("C13.fromstr.nopanic", &wit, || p),
                 Ok(Err(_)) => bump(oc, "asn-rejected"),
                 Ok(Ok(a)) => {
                     any = true;
@@ -370,7 +388,7 @@ fn main() {
         sp.set("examples_of_accepted_non_canonical_spellings", json!(lenient));
         sp.sample_str(|| "text=\"10.0.0.0/+8\" -> accepted as 10.0.0.0/8 (lenient integer syntax; value is valid, not a violation)".into());
         sp.sample_str(|| "text=\"10.0.0.0/33\" -> rejected; text=\"10.0.0.0/8-7\" -> rejected".into());
-        sp.done(true, &format!("deviation bound {} on {} seeds + {} numeric spellings, 4 entry points each", if thorough { 2 } else { 1 }, seeds.len(), texts.len()));
+        sp.done(true, &format!("deviation bound {} on {} seeds + {} numeric spellings, 4 entry points each", if thorough { 2 } else { 1 }, seeds.len(), texts.len())); lap(&t0, &sp.name);
     }
 
     // ------------------------------------------------------ 4. prefix.relations
@@ -386,8 +404,14 @@ fn main() {
         }
     }
     dom.sort(); dom.dedup();
-    let prefixes: Vec<Prefix> = dom.iter().map(|m| Prefix::new(m.ip(), m.len).expect("valid by construction; checked in space 1")).collect();
-    let hashes: Vec<u64> = prefixes.iter().map(h).collect();
+    // (a constructor that refuses a valid prefix is a violation of space 1; such an element is dropped here)
+    let made: Vec<(MP, Prefix)> = dom.iter().filter_map(|m| match guard(|| Prefix::new(m.ip(), m.len)) {
+        Ok(Ok(p)) => Some((*m, p)),
+        _ => { ctx.fail("C13.prefix.construct.model", format!("strict addr={} len={}", m.ip(), m.len), "a valid prefix of the relation domain could not be constructed"); None }
+    }).collect();
+    let dom: Vec<MP> = made.iter().map(|x| x.0).collect();
+    let prefixes: Vec<Prefix> = made.iter().map(|x| x.1).collect();
+    let hashes: Vec<u64> = prefixes.iter().map(|p| guard(|| h(p)).unwrap_or(0)).collect();
     let n = dom.len();
     let sp = ctx.space("prefix.relations",
         "all ordered pairs and triples of the prefix domain (both families: every prefix up to the short length bound, plus lengths 9/16/24/31/32 resp. 9/32/64/96/127/128 at 7 addresses): covers = range inclusion within a family; cmp antisymmetric, Equal <=> == <=> same (family, address, length), == implies equal hash, a strictly covered prefix sorts before its cover; cmp transitive over all triples (relation matrix computed by n^2 real calls); non-trivial = pairs of different prefixes one of which covers the other + triples a<b<c of three different prefixes");
@@ -400,14 +424,14 @@ fn main() {
             let (b, pb) = (dom[j], prefixes[j]);
             let wit = || format!("a={} b={}", a.text(), b.text());
             let obs = guard(|| (pa.covers(pb), pa.cmp(&pb), pb.cmp(&pa), pa == pb, pa.partial_cmp(&pb)));
-            let (cov, c, c_rev, eq, pc) = match obs { Ok(o) => o, Err(p) => { fl.fail("C13.prefix.relations.nopanic", wit(), p); continue } };
+            let (cov, c, c_rev, eq, pc) = match obs { Ok(o) => o, Err(p) => { fl.fail("C13.prefix.relations.nopanic", &wit, || p); continue } };
             let m_cov = a.covers(b);
-            if cov != m_cov { fl.fail("C13.prefix.covers", wit(), format!("a.covers(b) = {cov}, range inclusion says {m_cov}")) }
-            if c != c_rev.reverse() { fl.fail("C13.prefix.cmp.antisymmetric", wit(), format!("cmp(a,b) = {c:?}, cmp(b,a) = {c_rev:?}")) }
-            if pc != Some(c) { fl.fail("C13.prefix.cmp.antisymmetric", wit(), format!("partial_cmp = {pc:?}, cmp = {c:?}")) }
-            if (c == Ordering::Equal) != eq || eq != (a == b) { fl.fail("C13.prefix.cmp.eq", wit(), format!("cmp = {c:?}, == is {eq}, same value: {}", a == b)) }
-            if eq && hashes[i] != hashes[j] { fl.fail("C13.prefix.eq.hash", wit(), "equal prefixes hash differently") }
-            if m_cov && a != b && c_rev != Ordering::Less { fl.fail("C13.prefix.cmp.specific_first", wit(), format!("a covers b, yet cmp(b,a) = {c_rev:?}")) }
+            if cov != m_cov { fl.fail("C13.prefix.covers", &wit, || format!("a.covers(b) = {cov}, range inclusion says {m_cov}")) }
+            if c != c_rev.reverse() { fl.fail("C13.prefix.cmp.antisymmetric", &wit, || format!("cmp(a,b) = {c:?}, cmp(b,a) = {c_rev:?}")) }
+            if pc != Some(c) { fl.fail("C13.prefix.cmp.antisymmetric", &wit, || format!("partial_cmp = {pc:?}, cmp = {c:?}")) }
+            if (c == Ordering::Equal) != eq || eq != (a == b) { fl.fail("C13.prefix.cmp.eq", &wit, || format!("cmp = {c:?}, == is {eq}, same value: {}", a == b)) }
+            if eq && hashes[i] != hashes[j] { fl.fail("C13.prefix.eq.hash", &wit, || "equal prefixes hash differently".into()) }
+            if m_cov && a != b && c_rev != Ordering::Less { fl.fail("C13.prefix.cmp.specific_first", &wit, || format!("a covers b, yet cmp(b,a) = {c_rev:?}")) }
             match c { Ordering::Less => c_l += 1, Ordering::Equal => c_e += 1, Ordering::Greater => c_g += 1 }
             if a.v4 != b.v4 { c_x += 1 } else if m_cov || b.covers(a) { c_cov += 1; if i != j { nt += 1 } } else { c_dis += 1 }
         }
@@ -423,8 +447,7 @@ fn main() {
                 let strict = ab < 0 || bc < 0;
                 if ab == 2 || bc == 2 || ac == 2 { continue }   // panics are reported by the pair pass
                 if (strict && ac != -1) || (!strict && ac != 0) {
-                    fl.fail("C13.prefix.cmp.transitive", format!("a={} b={} c={}", a.text(), dom[j].text(), dom[k].text()),
-                        format!("cmp(a,b) = {ab}, cmp(b,c) = {bc}, but cmp(a,c) = {ac}"));
+                    fl.fail("C13.prefix.cmp.transitive", &|| format!("a={} b={} c={}", a.text(), dom[j].text(), dom[k].text()), || format!("cmp(a,b) = {ab}, cmp(b,c) = {bc}, but cmp(a,c) = {ac}"));
                 }
                 if ab < 0 && bc < 0 { tri += 1 }
             }
@@ -438,7 +461,7 @@ fn main() {
     sp.set("prefixes", json!(n)); sp.set("short_length_bound", json!(short));
     sp.sample_str(|| "a=0.0.0.0/0 b=128.0.0.0/1 : a covers b, so b < a".into());
     sp.sample_str(|| "a=::/127 b=::1/128 : a covers b".into());
-    sp.done(true, &format!("all {n}^2 pairs and {n}^3 triples of the domain (all prefixes of length <= {short} in both families + deep lengths)"));
+    sp.done(true, &format!("all {n}^2 pairs and {n}^3 triples of the domain (all prefixes of length <= {short} in both families + deep lengths)")); lap(&t0, &sp.name);
 
     // ------------------------------------------------------ 5. maxlen.relations
     let sub_short: u8 = ctx.tier.pick(3, 4);
@@ -449,7 +472,10 @@ fn main() {
         let mut opts = vec![None, Some(m.len), Some(fam_max(m.v4))];
         if m.len < fam_max(m.v4) { opts.push(Some(m.len + 1)) }
         opts.sort(); opts.dedup();
-        for o in opts { mls.push((i, m, o, MaxLenPrefix::new(prefixes[i], o).expect("valid by construction; checked in space 2"))) }
+        for o in opts { match guard(|| MaxLenPrefix::new(prefixes[i], o)) {
+            Ok(Ok(v)) => mls.push((i, m, o, v)),
+            _ => ctx.fail("C13.maxlen.new", format!("prefix={} max_len={o:?}", m.text()), "a valid max-len prefix of the relation domain could not be constructed"),
+        }}
     }
     let sp = ctx.space("maxlen.relations",
         "all ordered pairs and triples of max-len prefixes (sub-domain of prefixes x max-len in {None, len, len+1, family max}): cmp antisymmetric, Equal <=> == <=> same (prefix, max-len), == implies equal hash, a value whose prefix is strictly covered sorts first, transitive; non-trivial = pairs with the same prefix and different max-len + strict chains of three different values");
@@ -457,7 +483,7 @@ fn main() {
         let n = mls.len();
         let cm: Vec<i8> = (0..n * n).into_par_iter().map(|k| match guard(|| mls[k / n].3.cmp(&mls[k % n].3)) {
             Ok(Ordering::Less) => -1, Ok(Ordering::Equal) => 0, Ok(Ordering::Greater) => 1, Err(_) => 2 }).collect();
-        let hs: Vec<u64> = mls.iter().map(|x| h(&x.3)).collect();
+        let hs: Vec<u64> = mls.iter().map(|x| guard(|| h(&x.3)).unwrap_or(0)).collect();
         batched(&ctx, n, 4096, |i, fl| {
             let (_, ma, oa, va) = mls[i];
             let (mut c_l, mut c_e, mut c_g, mut nt, mut tri) = (0u64, 0u64, 0u64, 0u64, 0u64);
@@ -465,13 +491,13 @@ fn main() {
                 let (_, mb, ob, vb) = mls[j];
                 let wit = || format!("a={}{} b={}{}", ma.text(), oa.map(|x| format!("-{x}")).unwrap_or_default(), mb.text(), ob.map(|x| format!("-{x}")).unwrap_or_default());
                 let (c, cr) = (cm[i * n + j], cm[j * n + i]);
-                if c == 2 { fl.fail("C13.maxlen.cmp.nopanic", wit(), "cmp panicked"); continue }
+                if c == 2 { fl.fail("C13.maxlen.cmp.nopanic", &wit, || "cmp panicked".into()); continue }
                 if cr == 2 { continue }
-                let eq = va == vb;
-                if c != -cr { fl.fail("C13.maxlen.cmp.antisymmetric", wit(), format!("cmp(a,b) = {c}, cmp(b,a) = {cr}")) }
-                if (c == 0) != eq || eq != (ma == mb && oa == ob) { fl.fail("C13.maxlen.cmp.eq", wit(), format!("cmp = {c}, == is {eq}, same value: {}", ma == mb && oa == ob)) }
-                if eq && hs[i] != hs[j] { fl.fail("C13.maxlen.eq.hash", wit(), "equal values hash differently") }
-                if ma.covers(mb) && ma != mb && cr != -1 { fl.fail("C13.maxlen.cmp.specific_first", wit(), format!("prefix of a covers prefix of b, yet cmp(b,a) = {cr}")) }
+                let eq = match guard(|| va == vb) { Ok(e) => e, Err(p) => { fl.fail("C13.maxlen.cmp.nopanic", &wit, || p); continue } };
+                if c != -cr { fl.fail("C13.maxlen.cmp.antisymmetric", &wit, || format!("cmp(a,b) = {c}, cmp(b,a) = {cr}")) }
+                if (c == 0) != eq || eq != (ma == mb && oa == ob) { fl.fail("C13.maxlen.cmp.eq", &wit, || format!("cmp = {c}, == is {eq}, same value: {}", ma == mb && oa == ob)) }
+                if eq && hs[i] != hs[j] { fl.fail("C13.maxlen.eq.hash", &wit, || "equal values hash differently".into()) }
+                if ma.covers(mb) && ma != mb && cr != -1 { fl.fail("C13.maxlen.cmp.specific_first", &wit, || format!("prefix of a covers prefix of b, yet cmp(b,a) = {cr}")) }
                 match c { -1 => c_l += 1, 0 => c_e += 1, _ => c_g += 1 }
                 if ma == mb && oa != ob { nt += 1 }
                 if c > 0 { continue }
@@ -481,8 +507,7 @@ fn main() {
                     if bc == 2 || ac == 2 { continue }
                     let strict = c < 0 || bc < 0;
                     if (strict && ac != -1) || (!strict && ac != 0) {
-                        fl.fail("C13.maxlen.cmp.transitive", format!("{} c={}{}", wit(), mls[k].1.text(), mls[k].2.map(|x| format!("-{x}")).unwrap_or_default()),
-                            format!("cmp(a,b) = {c}, cmp(b,c) = {bc}, but cmp(a,c) = {ac}"));
+                        fl.fail("C13.maxlen.cmp.transitive", &|| format!("{} c={}{}", wit(), mls[k].1.text(), mls[k].2.map(|x| format!("-{x}")).unwrap_or_default()), || format!("cmp(a,b) = {c}, cmp(b,c) = {bc}, but cmp(a,c) = {ac}"));
                     }
                     if c < 0 && bc < 0 { tri += 1 }
                 }
@@ -493,7 +518,7 @@ fn main() {
         sp.evals((n * n) as u64);
         sp.set("values", json!(n));
         sp.sample_str(|| "a=0.0.0.0/0-0 b=0.0.0.0/0 : different values (max-len Some(0) vs None), a < b".into());
-        sp.done(true, &format!("all {n}^2 pairs and {n}^3 triples"));
+        sp.done(true, &format!("all {n}^2 pairs and {n}^3 triples")); lap(&t0, &sp.name);
     }
 
     // ------------------------------------------------------ 6. origin.relations
@@ -506,7 +531,7 @@ fn main() {
         let n = ros.len();
         let cm: Vec<i8> = (0..n * n).into_par_iter().map(|k| match guard(|| ros[k / n].3.cmp(&ros[k % n].3)) {
             Ok(Ordering::Less) => -1, Ok(Ordering::Equal) => 0, Ok(Ordering::Greater) => 1, Err(_) => 2 }).collect();
-        let hs: Vec<u64> = ros.iter().map(|x| h(&x.3)).collect();
+        let hs: Vec<u64> = ros.iter().map(|x| guard(|| h(&x.3)).unwrap_or(0)).collect();
         let show = |r: &(usize, u8, u32, RouteOrigin)| { let (_, m, o, _) = mls[r.0]; format!("{}{} AS{}", m.text(), o.map(|x| format!("-{x}")).unwrap_or_default(), r.2) };
         batched(&ctx, n, 2048, |i, fl| {
             let ra = &ros[i]; let ma = mls[ra.0].1;
@@ -515,19 +540,19 @@ fn main() {
                 let rb = &ros[j]; let mb = mls[rb.0].1;
                 let wit = || format!("a=[{}] b=[{}]", show(ra), show(rb));
                 let (c, cr) = (cm[i * n + j], cm[j * n + i]);
-                if c == 2 { fl.fail("C13.origin.cmp.nopanic", wit(), "cmp panicked"); continue }
+                if c == 2 { fl.fail("C13.origin.cmp.nopanic", &wit, || "cmp panicked".into()); continue }
                 if cr == 2 { continue }
-                let eq = match guard(|| (ra.3 == rb.3, ra.3.partial_cmp(&rb.3))) { Ok((e, pc)) => { if pc.map(|x| x as i8) != Some(c) { fl.fail("C13.origin.cmp.antisymmetric", wit(), "partial_cmp differs from cmp") } e }
-                    Err(p) => { fl.fail("C13.origin.cmp.nopanic", wit(), p); continue } };
+                let eq = match guard(|| (ra.3 == rb.3, ra.3.partial_cmp(&rb.3))) { Ok((e, pc)) => { if pc.map(|x| x as i8) != Some(c) { fl.fail("C13.origin.cmp.antisymmetric", &wit, || "partial_cmp differs from cmp".into()) } e }
+                    Err(p) => { fl.fail("C13.origin.cmp.nopanic", &wit, || p); continue } };
                 let same_key = ma == mb && ra.1 == rb.1 && ra.2 == rb.2;
-                if eq != same_key { fl.fail("C13.origin.eq.key", wit(), format!("== is {eq}; same (prefix, effective max-len, ASN): {same_key}")) }
-                if (c == 0) != eq { fl.fail("C13.origin.cmp.eq", wit(), format!("cmp = {c}, == is {eq}")) }
-                if eq && hs[i] != hs[j] { fl.fail("C13.origin.eq.hash", wit(), "equal route origins hash differently") }
-                if c != -cr { fl.fail("C13.origin.cmp.antisymmetric", wit(), format!("cmp(a,b) = {c}, cmp(b,a) = {cr}")) }
+                if eq != same_key { fl.fail("C13.origin.eq.key", &wit, || format!("== is {eq}; same (prefix, effective max-len, ASN): {same_key}")) }
+                if (c == 0) != eq { fl.fail("C13.origin.cmp.eq", &wit, || format!("cmp = {c}, == is {eq}")) }
+                if eq && hs[i] != hs[j] { fl.fail("C13.origin.eq.hash", &wit, || "equal route origins hash differently".into()) }
+                if c != -cr { fl.fail("C13.origin.cmp.antisymmetric", &wit, || format!("cmp(a,b) = {c}, cmp(b,a) = {cr}")) }
                 // lexicographic key: prefix (by the prefix's own order), effective max-len, ASN
                 let (pi, pj) = (mls[ra.0].0, mls[rb.0].0);
                 let want = match cmpm[pi * dom.len() + pj] { 0 => match ra.1.cmp(&rb.1) { Ordering::Equal => ra.2.cmp(&rb.2) as i8, o => o as i8 }, o => o };
-                if want != 2 && c != want { fl.fail("C13.origin.cmp.key", wit(), format!("cmp = {c}, lexicographic (prefix, effective max-len, ASN) gives {want}")) }
+                if want != 2 && c != want { fl.fail("C13.origin.cmp.key", &wit, || format!("cmp = {c}, lexicographic (prefix, effective max-len, ASN) gives {want}")) }
                 match c { -1 => c_l += 1, 0 => c_e += 1, _ => c_g += 1 }
                 if i != j && eq { c_alias += 1; nt += 1 }
                 if ma == mb && !eq && (ra.1 == rb.1 || ra.2 == rb.2) { nt += 1 }
@@ -538,7 +563,7 @@ fn main() {
                     if bc == 2 || ac == 2 { continue }
                     let strict = c < 0 || bc < 0;
                     if (strict && ac != -1) || (!strict && ac != 0) {
-                        fl.fail("C13.origin.cmp.transitive", format!("{} c=[{}]", wit(), show(&ros[k])), format!("cmp(a,b) = {c}, cmp(b,c) = {bc}, but cmp(a,c) = {ac}"));
+                        fl.fail("C13.origin.cmp.transitive", &|| format!("{} c=[{}]", wit(), show(&ros[k])), || format!("cmp(a,b) = {c}, cmp(b,c) = {bc}, but cmp(a,c) = {ac}"));
                     }
                     if c < 0 && bc < 0 { tri += 1 }
                 }
@@ -550,7 +575,7 @@ fn main() {
         sp.evals((n * n) as u64);
         sp.set("values", json!(n)); sp.set("asns", json!(asns));
         sp.sample_str(|| "a=[0.0.0.0/0 AS1] b=[0.0.0.0/0-0 AS1] : equal (effective max-len 0 both)".into());
-        sp.done(true, &format!("all {n}^2 pairs and {n}^3 triples"));
+        sp.done(true, &format!("all {n}^2 pairs and {n}^3 triples")); lap(&t0, &sp.name);
     }
 
     // ------------------------------------------------------------- 7. asn.text
@@ -592,7 +617,7 @@ fn main() {
             }
         }
         sp.sample_str(|| "AS4294967295 -> Asn(4294967295) -> \"AS4294967295\"".into());
-        sp.done(true, &format!("{} values x 3 spellings", vals.len()));
+        sp.done(true, &format!("{} values x 3 spellings", vals.len())); lap(&t0, &sp.name);
     }
 
     // --------------------------------------------------------- 8. asnset.build
@@ -631,7 +656,7 @@ fn main() {
         });
         sp.evals(total);
         sp.sample_str(|| "items=[1, 1] -> must iterate as [1]".into());
-        sp.done(true, &format!("all {total} sequences of length <= {seq_len} over 5 values"));
+        sp.done(true, &format!("all {total} sequences of length <= {seq_len} over 5 values")); lap(&t0, &sp.name);
     }
 
     // ----------------------------------------------------------- 9. asnset.ops
@@ -642,18 +667,24 @@ fn main() {
         let total = seq_count(5, op_len) as usize;
         let mut idx = Vec::new();
         let seqs: Vec<Vec<u32>> = (0..total as u64).map(|i| { seq_at(5, op_len, i, &mut idx); idx.iter().map(|&k| d[k]).collect() }).collect();
-        let sets: Vec<SmallAsnSet> = seqs.iter().map(|v| v.iter().map(|&x| Asn::from_u32(x)).collect()).collect();
+        let sets: Vec<SmallAsnSet> = seqs.iter().map(|v| guard(|| v.iter().map(|&x| Asn::from_u32(x)).collect::<SmallAsnSet>()).unwrap_or_default()).collect();
         let models: Vec<BTreeSet<u32>> = seqs.iter().map(|v| v.iter().copied().collect()).collect();
+        // An operand that is not the canonical set of its items is already a
+        // violation of C13.asnset.from_iter (space asnset.build); the merge walks
+        // are only examined on operands that are sets.
+        let canon_ok: Vec<bool> = (0..total).map(|i| guard(|| sets[i].iter().map(|a| a.into_u32()).eq(models[i].iter().copied())).unwrap_or(false)).collect();
+        let skipped_operands = canon_ok.iter().filter(|b| !**b).count();
         batched(&ctx, total, 1024, |i, fl| {
-            let (mut nt, mut c_over, mut c_dis, mut c_same) = (0u64, 0u64, 0u64, 0u64);
+            let (mut nt, mut c_over, mut c_dis, mut c_same, mut c_skip) = (0u64, 0u64, 0u64, 0u64, 0u64);
             for j in 0..total {
+                if !canon_ok[i] || !canon_ok[j] { c_skip += 1; continue }
                 let (a, b) = (&models[i], &models[j]);
                 if a == b { c_same += 1 } else if a.is_disjoint(b) { c_dis += 1 } else { c_over += 1; nt += 1 }
                 let wit = || format!("left={:?} right={:?}", seqs[i], seqs[j]);
                 let run = |name: &'static str, got: Result<Vec<u32>, String>, want: Vec<u32>, fl: &mut Fails| {
                     match got {
-                        Err(p) => fl.fail(name, wit(), p),
-                        Ok(g) => if g != want { fl.fail(name, wit(), format!("gives {g:?}, mathematical result {want:?}")) }
+                        Err(p) => fl.fail(name, &wit, || p),
+                        Ok(g) => if g != want { fl.fail(name, &wit, || format!("gives {g:?}, mathematical result {want:?}")) }
                     }
                 };
                 let (l, r) = (&sets[i], &sets[j]);
@@ -662,13 +693,21 @@ fn main() {
                 run("C13.asnset.difference", guard(|| l.difference(r).map(|x| x.into_u32()).collect()), a.difference(b).copied().collect(), fl);
                 run("C13.asnset.symmetric_difference", guard(|| l.symmetric_difference(r).map(|x| x.into_u32()).collect()), a.symmetric_difference(b).copied().collect(), fl);
             }
-            sp.evals(4 * total as u64); sp.nontrivial(nt);
+            sp.evals(4 * (total as u64 - c_skip)); sp.nontrivial(nt);
             sp.outcomes_n("overlapping", c_over); sp.outcomes_n("disjoint", c_dis); sp.outcomes_n("equal-sets", c_same);
+            sp.outcomes_n("skipped-operand-is-not-a-set", c_skip);
         });
         sp.set("sequences", json!(total));
         sp.sample_str(|| "left=[1, 1] right=[1] : difference must be []".into());
-        sp.done(true, &format!("all {total}^2 ordered pairs of sequences of length <= {op_len} x 4 operations"));
+        sp.set("operands_rejected_by_from_iter_oracle", json!(skipped_operands));
+        sp.done(skipped_operands == 0, &if skipped_operands == 0 { format!("all {total}^2 ordered pairs of sequences of length <= {op_len} x 4 operations") }
+            else { format!("ordered pairs of the {} of {total} sequences (length <= {op_len}) whose collected set is canonical x 4 operations; the others fail C13.asnset.from_iter", total - skipped_operands) });
     }
 
+    let suppressed = SUPPRESSED.load(AtomicOrdering::Relaxed);
+    if suppressed > 0 {
+        sp.set("failing_cases_counted_but_not_listed_individually", json!(suppressed));
+        println!("note: {suppressed} further failing cases (beyond {ROW_CAP} per oracle and work item) were found but not listed individually");
+    }
     ctx.finish();
 }
